@@ -86,7 +86,7 @@ static void one(struct hwloc_topology *t, unsigned d1, unsigned d2, unsigned kw,
 #if OPP
   s[p++] = mode == 1 ? '~' : mode == 2 ? 'x' : '^';
 #endif
-  unsigned long ec = 0, en = 0; int expect_err = 0;
+  unsigned long ec = 0, en = 0; int expect_err = 0, open_ended = 0, sparse = 0;
 #define SEL(i) do { if ((i) < lv.n) { ec |= lv.c[i]; en |= lv.ns[i]; } } while (0)
 #define SELIDX(idx) do { if (lc.logical) SEL(idx); else for (unsigned k_ = 0; k_ < 4; k_++) if (k_ < lv.n && lv.os[k_] == (idx)) SEL(k_); } while (0)
 #if TPL <= 4
@@ -100,15 +100,17 @@ static void one(struct hwloc_topology *t, unsigned d1, unsigned d2, unsigned kw,
   if (d2 < d1) expect_err = 1; else for (unsigned i = 0; i < 6; i++) if (i >= d1 && i <= d2) SELIDX(i);
 #elif TPL == 2
   s[p++] = (char) ('0' + d1); s[p++] = '-';
-  /* from d1 to the last object (by position for logical indexes, by value up to first+width-... for physical ones) */
-  if (lc.logical) { for (unsigned i = 0; i < 4; i++) if (i >= d1) SEL(i); }
-  else { if (d1 < lv.n) for (unsigned i = d1; i < lv.n; i++) SELIDX(i); }
+  /* hwloc(7): "x- enumerates all objects starting from index x": every object whose (logical or physical) index is >= d1 */
+  for (unsigned i = 0; i < 4; i++) if (i < lv.n && (lc.logical ? i : lv.os[i]) >= d1) SEL(i);
+  open_ended = 1;
 #elif TPL == 3
   s[p++] = (char) ('0' + d1); s[p++] = ':'; s[p++] = (char) ('0' + d2);
   { unsigned i = d1; for (unsigned j = 0; j < 6; j++) if (j < d2) { if (i >= lv.n) i = 0; SELIDX(i); i++; } }
 #elif TPL == 4
   { const char *k = kw == 0 ? "all" : kw == 1 ? "odd" : "even"; for (unsigned i = 0; k[i]; i++) s[p++] = k[i];
-    for (unsigned i = 0; i < 4; i++) if (i < lv.n && (kw == 0 || (i & 1) == (kw == 1))) SELIDX(i); }
+    /* hwloc(7): "all valid index values" / "all valid odd (even) index values", in the index space in use */
+    for (unsigned i = 0; i < 4; i++) if (i < lv.n && (kw == 0 || ((lc.logical ? i : lv.os[i]) & 1) == (kw == 1))) SEL(i);
+    open_ended = 1; }
 #elif TPL == 5 || TPL == 6
   { const char *h = "pack:"; for (unsigned i = 0; h[i]; i++) s[p++] = h[i]; s[p++] = (char) ('0' + d1);
     const char *m = TPL == 5 ? ".pu:" : ".numa:all"; for (unsigned i = 0; m[i]; i++) s[p++] = m[i];
@@ -118,15 +120,29 @@ static void one(struct hwloc_topology *t, unsigned d1, unsigned d2, unsigned kw,
     if (par >= 0) { struct lvl *sub = TPL == 5 ? &lpu : &lnuma; unsigned rank = 0;
       for (unsigned k = 0; k < 4; k++) if (k < sub->n) {
         int inside = !(sub->c[k] && !(sub->c[k] & lpack.c[par])) && !(sub->ns[k] && !(sub->ns[k] & lpack.ns[par])) && (sub->c[k] || sub->ns[k]);
-        if (inside) { int take = TPL == 6 || (lc.logical ? rank == d2 : sub->os[k] == d2); if (take) { ec |= sub->c[k]; en |= sub->ns[k]; } rank++; } } } }
+        if (inside) { int take = TPL == 6 || (lc.logical ? rank == d2 : sub->os[k] == d2); if (take) { ec |= sub->c[k]; en |= sub->ns[k]; } if (sub->os[k] != rank) sparse = 1; rank++; } } }
+    if (TPL == 6) open_ended = 1; }
 #else
   { const char *k = kw ? "all" : "root"; for (unsigned i = 0; k[i]; i++) s[p++] = k[i]; ec = 0x27; en = 0x3; }
+#endif
+#if TPL <= 4
+  for (unsigned i = 0; i < 4; i++) if (i < lv.n && lv.os[i] != i) sparse = 1;
+#endif
+#ifdef KF_C20_PHYSICAL_SPARSE
+  /* known finding (known_findings.json): with physical input indexes, open-ended ranges and the all/odd/even keywords
+   * enumerate index values below the NUMBER of objects instead of all valid index values; objects whose os_index is
+   * not below that number are missed. Excluded: exactly those inputs. */
+  if (!lc.logical && open_ended && sparse) { o->r = 98; return; }
 #endif
   s[p] = 0;
   o->r = hwloc_calc_process_location_as_set(&lc, &sc, s);
   o->oc = vp_w(sc.output_cpuset); o->on = vp_w(sc.output_nodeset); o->ec = ec; o->en = en; o->expect_err = expect_err;
 }
 /* which of d2 / kw a template reads (the others are pinned to 0 so that each case is executed once) */
+#ifndef DN
+#define DN 6
+#define DVALS { 0, 1, 2, 3, 4, 5 }
+#endif
 #define USES_D2 (TPL == 1 || TPL == 3 || TPL == 5)
 #define USES_KW (TPL == 4 || TPL == 7)
 #define USES_D1 (TPL != 4 && TPL != 7)
@@ -145,10 +161,17 @@ VP_HARNESS(h_location)
   /* the digits and the keyword select one of the concretely built strings: a symbolic character inside the text
    * would let symex follow every reading of it (a '.', a NUL, a letter) through the whole evaluator */
   struct out o; o.r = 99; o.expect_err = 0; o.oc = o.on = o.ec = o.en = 0;
-  for (unsigned v1 = 0; v1 < (USES_D1 ? 6 : 1); v1++) for (unsigned v2 = 0; v2 < (USES_D2 ? 6 : 1); v2++) for (unsigned vk = 0; vk < (USES_KW ? 3 : 1); vk++) for (int vm = OPP ? 1 : 0; vm <= (OPP ? 3 : 0); vm++)
+  static const unsigned dv[DN] = DVALS;      /* the digit values a query ranges over (all of 0..5 unless the tier narrows it) */
+  int in1 = !USES_D1, in2 = !USES_D2;
+  for (unsigned i = 0; i < DN; i++) { if (d1 == dv[i]) in1 = 1; if (d2 == dv[i]) in2 = 1; }
+  VP_ASSUME(in1 && in2);
+  for (unsigned i1 = 0; i1 < (USES_D1 ? DN : 1); i1++) for (unsigned i2 = 0; i2 < (USES_D2 ? DN : 1); i2++) for (unsigned vk = 0; vk < (USES_KW ? 3 : 1); vk++) for (int vm = OPP ? 1 : 0; vm <= (OPP ? 3 : 0); vm++) {
+    unsigned v1 = USES_D1 ? dv[i1] : 0, v2 = USES_D2 ? dv[i2] : 0;
     if (d1 == v1 && d2 == v2 && kw == vk && mode == vm) one(t, v1, v2, vk, logical, vm, ac, an, &o);
+  }
   int r = o.r, expect_err = o.expect_err; unsigned long oc = o.oc, on = o.on, ec = o.ec, en = o.en;
   VP_CHECK(r != 99, "one case executed");
+  VP_ASSUME(r != 98);      /* only with a known-finding exclusion macro */
   if (expect_err) { VP_CHECK(r == -1, "a reversed range is a malformed location: rejected"); VP_CHECK(oc == ac && on == an, "a rejected location leaves the accumulated sets unchanged"); }
   else {
     VP_CHECK(r == 0, "a well-formed location is accepted");
